@@ -153,6 +153,20 @@ def ofScalars (cs : List Nat) : Text :=
 
 end Text
 
+/-- `segs` tile `[pos, e)`: consecutive, each at least one unit long. -/
+def SegsFrom : Nat → List Seg → Nat → Prop
+  | pos, [], e => pos = e
+  | pos, s :: ss, e => s.start = pos ∧ 0 < s.len ∧ SegsFrom (pos + s.len) ss e
+
+/-- A well-formed text: the characters tile `[0, len)` and every character's
+    length is the encoding's length of its scalar value.  Holds for every
+    `&str` (`Text.ofScalars`) and every `&[u16]` (`Utf16.toText`), and for
+    sub-ranges on character boundaries; theorems about the generic code take
+    it as their hypothesis. -/
+structure Text.WF (t : Text) : Prop where
+  tiles : SegsFrom 0 t.segs t.len
+  lens : ∀ s ∈ t.segs, s.len = t.enc.charLen s.cp
+
 /-- Levels are `Nat`; the `u8` / 125 / 126 checks are in `Model.Level`. -/
 structure ParaInfo where
   start : Nat
